@@ -103,6 +103,61 @@ def one(ctx, name, cfg, kind, f, decider, do_model=True, label="", cut=None):
     return run
 
 
+def rewrite_passes(ctx, name, cfg, kind, f, decider, label):
+    """the round skeleton of a rewriting strategy: record what every call of its pass function reports (chunk size, tests
+    run, characters/arguments it says it removed), check the two hypotheses of theorem C09_rewrite_skeleton on these
+    numbers, and replay the pass list through the Lean skeleton `rwLoop` (same number of tests and passes, ends by break)"""
+    st = strat.make_strategy(name, cfg)
+    passes = []
+    props = name == "replace-properties-by-globals"
+    orig = st.try_making_globals if props else st.try_arguments_as_globals
+
+    def wrapped(*a, **k):
+        it = a[-1]
+        rec = dict(cs=a[0] if props else 1, tests=0, removed=0, bytes=sum(len(p) for p in it.testcase.parts))
+        passes.append(rec)
+        pending = None
+        for item in orig(*a, **k):
+            if pending is not None and it.last_feedback:
+                rec["removed"] += pending
+            rec["tests"] += 1
+            pending = item[0]
+            yield item
+        if pending is not None and it.last_feedback:
+            rec["removed"] += pending
+
+    if props:
+        st.try_making_globals = wrapped
+    else:
+        st.try_arguments_as_globals = wrapped
+    tc = strat.testcase_from_fields(kind, f)
+    B = sum(len(p) for p, r in zip(f[1], f[2]) if r)
+    run = strat.run_real(name, cfg, tc, decider, max_tests=(B + 2) ** 2 + 2, watchdog=10.0, strategy=st)
+    case = dict(strategy=name, cfg=dict(cfg), splitter=kind, parts=common.enc_list(f[1]), label=label,
+                passes=[(p["cs"], p["tests"], p["removed"]) for p in passes][:60])
+    ctx.evaluations += 1
+    ctx.bump("rewrite-skeleton:" + name)
+    if run.error:
+        return  # reported (or matched with the recorded finding) by `one`
+    P = max(B // 2, 1)
+    for i, p in enumerate(passes):
+        if p["tests"] > P:
+            ctx.fail("rewrite-pass-too-long", f"{name}: pass {i} (chunk size {p['cs']}) ran {p['tests']} tests on {B} bytes of reducible text "
+                     f"(hypothesis of C09_rewrite_skeleton: at most B/2)", case)
+            return
+    if sum(p["removed"] for p in passes) > B:
+        ctx.fail("rewrite-progress-unbounded", f"{name}: the passes report {sum(p['removed'] for p in passes)} removed in total on {B} bytes "
+                 f"(hypothesis of C09_rewrite_skeleton: at most B)", case)
+        return
+    rep = cfg.get("rep", "last")
+    final = max(cfg.get("min", 1), 1) if props else 1
+    cs0 = passes[0]["cs"] if passes else 1
+    plist = ",".join(f"{p['tests']}:{p['removed']}" for p in passes) or "0:0"
+    ctx.expect("rwloop", f"rwloop {rep} {final} {cs0} {plist}", f"{len(run.verdicts)} {len(passes)} 1", case)
+    if len(passes) >= 3 and any(p["removed"] for p in passes):
+        ctx.nontriv("rewrite-skeleton", name, repr(sorted(cfg.items())), case["parts"], tuple(case["passes"]))
+
+
 def deciders(rng):
     yield "always-yes", (lambda k, c: True)
     yield "always-no", (lambda k, c: False)
@@ -138,6 +193,8 @@ def grid(ctx, thorough, do_model=True):
                 for cfg in (dict(), dict(rep="always"), dict(rep="never")):
                     for label, dec in deciders(rng):
                         one(ctx, name, cfg, kind, f, dec, do_model, label)
+                        if do_model:
+                            rewrite_passes(ctx, name, cfg, kind, f, dec, label)
 
 
 COLLAPSE_FILES = [b"f{ \n }g;h{\t}\n;x y z {  } w\n", b"a {\n\n}\nb{ }{\r\n}\nc\n", b"// DDBEGIN\nif (x) {\n  \n}\ny{\n}\n// DDEND\n{\n}\n"]
@@ -275,7 +332,9 @@ def run(ctx) -> int:
         ctx.exhaustive.append("every verdict sequence of the four removal strategies for n <= 4 atoms (repeat last/always)")
     hill_climb(ctx, 400 if ctx.thorough else 60)
     return common.decide(ctx, proof, RULE, search=search,
-                         assumptions=["the rewriting strategies' bound is a theorem about their round skeleton under monitored hypotheses, not about their regex code",
+                         assumptions=["the rewriting strategies: C09_rewrite_skeleton is a theorem about their round skeleton (which pass follows which); its two hypotheses "
+                                      "(a pass runs at most B/2 tests; the passes report at most B removed in total) are checked on the numbers the real pass "
+                                      "functions report, and the recorded pass lists are replayed through the Lean skeleton; the regex code of a pass is not modelled",
                                       "replace-arguments-by-globals growing the file without bound is a recorded finding"])
 
 
